@@ -9,6 +9,7 @@ PRE = [None, ("a", 0), ("a", 1), ("b", 0), ("b", 2), ("rc", 0), ("rc", 1), ("a",
 POST = [None, 0, 1, 456]
 DEV = [None, 0, 1, 34]
 LOCAL = [None, "a", "1", "a.1", "abc.5", "abc.7", "5", "ubuntu.1"]
+LOCAL_FAMILY = ["0", "00", "1", "7", "10", "a", "abc", "abc.0", "abc.1", "abc.rc1", "0.a", "a.0", "1.0", "deb.0", "deb.rc1", "local"]
 RELEASES = ["1", "1.0", "1.0.0", "1.1", "0.9", "2021.1", "1.0.1", "10", "1.10", "1.9", "2017.54321", "0", "0.0.1", "201811.7"]
 PRE_SPELL = {"a": ["a", "alpha", "A", "Alpha"], "b": ["b", "beta", "B"], "rc": ["rc", "c", "pre", "preview", "RC"]}
 POST_SPELL = ["post", "rev", "r", "POST"]
@@ -132,12 +133,22 @@ def run(ctx):
     # ---- code -> spec
     texts = gen_texts(rng, ctx.pick(260, 3000), ctx.pick(500, 6000))
     texts = [t for t in texts if len(t) <= 40]
+    # families that differ in the local segment only: numeric against alphanumeric parts (also the number 0), prefixes, leading zeros
+    fam = []
+    for base in ["1.0", "2021.3", "1.0rc1", "0.dev0"]:
+        fam.append([base + "+" + loc for loc in LOCAL_FAMILY])
+    texts = list(dict.fromkeys(texts + [t for f in fam for t in f]))
+    pos = {t: i for i, t in enumerate(texts)}
     n = len(texts)
     ctx.count("distinct_texts", n)
     idx = list(range(n))
     pairs = set()
     for a in idx:
         pairs.add((a, a))
+    for f in fam:
+        for x in f:
+            for y in f:
+                pairs.add((pos[x], pos[y]))
     # neighbours in a rough order are the interesting pairs: sort by the code's own key once to pick neighbours (selection only)
     while len(pairs) < ctx.pick(40000, 600000):
         a = rng.randrange(n)
